@@ -2,7 +2,7 @@
    (Translation invariance: see C12_shift_* below / DESIGN.md.) *)
 From Coq Require Import List ZArith Bool.
 From JSL Require Import Base.Res SM.Types SM.Util SM.Handler SM.Step SM.Middleware SM.Inv SM.Example
-  SMP.StepInv SMP.Clock SMP.ClockStep SMP.ClockMain.
+  SMP.StepInv SMP.Clock SMP.ClockStep SMP.ClockMain SM.ExampleShift.
 Import ListNotations.
 
 (* clock_b = nothing pending lies in the past (every PROCESSING operation ends >= now, every non-idle
@@ -54,3 +54,32 @@ Print Assumptions C12_reachable_live_states.
 
 Example C12_hypotheses_satisfiable : inst_nonneg_b ex_inst = true /\ clock_b ex_state = true.
 Proof. vm_compute. split; reflexivity. Qed.
+
+(* C12_shift_refuted: translation invariance ("starting later shifts every time stamp by the same offset") is
+   FALSE of the faithful model as soon as an outage is configured. SM/ExampleShift.v holds one compiled
+   instance (2 jobs, 2 machines, a recharge outage on m-1 every 4 for 2) with its initial state for
+   start_time 0 and for start_time 7 - the same state with the clock moved. After the same single accepted
+   offer the clocks are 3 and 8, i.e. 3 and 1 after the start. The implementation gives the same two clocks
+   (known finding F-C12-shift-outages; the C12 check replays the witness on every run). *)
+Definition sh_run (x0 : state) (acts : list Z) : option (result * mw) :=
+  match mw_reset sh_sigma sh_inst 200 x0 5%Z false (mkMw 5%Z 0 0 false) with
+  | MOk r m _ =>
+      fold_left (fun acc a => match acc with
+                              | Some (r, m) => match mw_step sh_sigma sh_inst 200 r m a with
+                                               | MOk r' m' _ => Some (r', m') | _ => None end
+                              | None => None end) acts (Some (r, m))
+  | _ => None
+  end.
+
+Theorem C12_shift_refuted :
+  sh_initK = set_now sh_init0 (s_now sh_init0 + sh_K) /\
+  exists r0 m0 rK mK,
+    sh_run sh_init0 [1]%Z = Some (r0, m0) /\ sh_run sh_initK [1]%Z = Some (rK, mK)
+    /\ s_now (r_x r0) = sh_clock0 /\ s_now (r_x rK) = sh_clockK
+    /\ (s_now (r_x rK) - sh_K <> s_now (r_x r0))%Z.
+Proof.
+  split; [vm_compute; reflexivity|]. do 4 eexists.
+  split; [vm_compute; reflexivity|]. split; [vm_compute; reflexivity|].
+  split; [reflexivity|]. split; [reflexivity|]. vm_compute. discriminate.
+Qed.
+Print Assumptions C12_shift_refuted.
